@@ -743,6 +743,11 @@ func (s *signGen) coinsOf(w string) (conf []gCoin, pend []gCoin) {
 	return
 }
 
+// ip2: a binding coin whose previous height has reached the history's MASSIP-2 warm-up height
+func (s *signGen) ip2(c gCoin) bool {
+	return s.l.warm > 0 && c.height >= s.l.warm && (c.cls == "bind" || c.cls == "bind22")
+}
+
 func (s *signGen) inSpec(c gCoin, seqMode int) string {
 	spec := c.key()
 	if c.cls == "stk" {
@@ -757,6 +762,20 @@ func (s *signGen) inSpec(c gCoin, seqMode int) string {
 			// default sequence (all ones): disable bit set, the engine refuses
 		default:
 			spec += fmt.Sprintf(":%d", (int64(1)<<38)|(c.frozen+1)) // time-based type bit
+		}
+	} else if s.ip2(c) {
+		// binding output at or above the (lowered) MASSIP-2 warm-up height: the engine runs `<0xfffffffe> CSV DROP` first
+		switch seqMode {
+		case 0:
+			spec += ":4294967294" // MASSIP0002BindingLockedPeriod, what the wallet itself sets
+		case 1:
+			spec += ":4294967295"
+		case 2:
+			spec += ":4294967293" // one short
+		case 3:
+			// default sequence: disable bit set
+		default:
+			spec += fmt.Sprintf(":%d", (int64(1)<<38)|4294967294) // time-based type bit
 		}
 	} else if seqMode == 1 {
 		spec += fmt.Sprintf(":%d", s.r.Intn(1000))
@@ -816,11 +835,32 @@ func (s *signGen) attempts(w, t, class string, flags []string) {
 	}
 }
 
+// bindSeq: a MASSIP-2 binding withdrawal whose sequence does not meet the engine's rule (one short / default / type bit)
+func (s *signGen) bindSeq(w string, all []gCoin) bool {
+	for _, c := range all {
+		if s.ip2(c) {
+			t := s.defineSignTx([]string{s.inSpec(c, 2+s.r.Intn(3))}, 1, c.amt)
+			s.attempts(w, t, "bind-seq", secAllFlags)
+			return true
+		}
+	}
+	return false
+}
+
 func (s *signGen) scenario() {
 	l := s.l
 	w := l.wallets[s.r.Intn(len(l.wallets))]
 	conf, pend := s.coinsOf(w)
 	all := append(append([]gCoin{}, conf...), pend...)
+	if s.l.warm > 0 && len(s.l.queue) == 0 && s.r.Intn(2) == 0 {
+		// C10 withdraw_sequence, MASSIP-2 branch: the sequence constructTxIn gives a binding coin at / above the warm-up height
+		for _, c := range conf {
+			if s.ip2(c) && c.amt >= 1000000 {
+				s.l.op("q-wseq-"+c.cls+"-ip2", "wseq %s %s %d", w, c.key(), []int{0, 0, 7, 500000001}[s.r.Intn(4)])
+				break
+			}
+		}
+	}
 	pickN := func(cs []gCoin, n int) []gCoin {
 		cs = append([]gCoin{}, cs...)
 		s.r.Shuffle(len(cs), func(i, j int) { cs[i], cs[j] = cs[j], cs[i] })
@@ -884,6 +924,11 @@ func (s *signGen) scenario() {
 		for c := range cls {
 			s.g.Stats["sign-class-"+c]++
 		}
+		for _, c := range cs {
+			if s.ip2(c) {
+				s.g.Stats["sign-class-bind-ip2"]++
+			}
+		}
 		if hasPend {
 			s.g.Stats["sign-pending-prev"]++
 		}
@@ -903,7 +948,10 @@ func (s *signGen) scenario() {
 		cs := pickN(all, 1)
 		t := s.defineSignTx([]string{s.inSpec(cs[0], 0)}, 1, total(cs))
 		s.attempts(w, t, "badflag", []string{"BOGUS", "all", "ALL|", "SINGLE|ANYONE", "ALL|ANYONECANPAY|X", "0x81"})
-	case k < 14: // staking withdrawal with a sequence that does not meet the lock
+	case k < 14: // staking (or MASSIP-2 binding) withdrawal with a sequence that does not meet the lock
+		if s.l.warm > 0 && s.bindSeq(w, all) {
+			return
+		}
 		for _, c := range all {
 			if c.cls == "stk" {
 				t := s.defineSignTx([]string{s.inSpec(c, 2+s.r.Intn(3))}, 1, c.amt)
@@ -1137,6 +1185,8 @@ func (s *signGen) abortThenWrong(r2 *rand.Rand) {
 }
 
 func genSecSign(g *Gen) {
+	// op lines go to memory; at the end they are replayed on a real wallet and every `sign` line gets its oracle tokens
+	defer secOracleCapture(g)()
 	nHist := g.Scale(140, 1500)
 	for h := 0; h < nHist; h++ {
 		if h%9 == 0 {
@@ -1148,6 +1198,9 @@ func genSecSign(g *Gen) {
 			continue
 		}
 		l := newLedGen(g, "sec")
+		if h%4 == 2 {
+			l.warm = 2 + h/4%5 // every fourth history runs with a MASSIP-2 warm-up height of 2..6
+		}
 		l.start(1 + g.Rng.Intn(2))
 		s := &signGen{l: l, g: g, r: g.Rng}
 		steps := 10 + g.Rng.Intn(g.Scale(22, 50))
@@ -1174,6 +1227,14 @@ func genSecSign(g *Gen) {
 		l.drain()
 		for i := 0; i < 3; i++ {
 			s.scenario()
+		}
+		if l.warm > 0 {
+			for _, w := range l.wallets {
+				conf, pend := s.coinsOf(w)
+				if s.bindSeq(w, append(conf, pend...)) {
+					break
+				}
+			}
 		}
 		s.abortThenWrong(rand.New(rand.NewSource(g.Seed*104729 + int64(h))))
 		l.op("q-klocked", "klocked")
